@@ -116,7 +116,7 @@ class C20(Property):
             cstep, cstep2, pstep, fan = rnd.choice([(1, 3, 6), (1, 2, 8), (2, 3, 12)]) + (True,)
         return dict(kind=kind, npairs=npairs, cstep=cstep, cstep2=cstep2, fanout_pull=fan, pstep=pstep, units=units, ncons=ncons, cons_units=rnd.choice([None, "same", "other"]),
                     coef=[[rnd.randint(1, 9), rnd.randint(0, 3), rnd.randint(1, 4), rnd.randint(0, 2)] for _ in range(npairs)], end=rnd.choice([6, 12, 18]),
-                    order=rnd.sample(range(2 + 2), 4))
+                    order=rnd.sample(range(2 + 2), 4), initial_pull=rnd.random() < 0.6)
 
     @staticmethod
     def _fanout_spec(rnd):
@@ -301,7 +301,7 @@ class C20(Property):
 
             def _initialize(self):
                 self.inputs.add(name="In", time=self.time, grid=fm.NoGrid(), units=cu)
-                self.create_connector(pull_data=["In"])
+                self.create_connector(pull_data=["In"] if spec.get("initial_pull", True) else [])
 
             def _connect(self, st):
                 self.try_connect(st)
@@ -337,6 +337,8 @@ class C20(Property):
         finally:
             REC.reset()
         out.count("wsum_compositions")
+        if not spec.get("initial_pull", True):
+            out.count("wsum_consumers_without_connect_time_pull")
         for cname, series in received.items():
             for (t, got, units) in series:
                 # producer publications nearest to t (both neighbours at an exact midpoint)
@@ -377,7 +379,7 @@ class C20(Property):
 
     def coverage_gaps(self, counters, tier):
         need = ["static_requests", "static_republication_refused", "static_input_cases", "pull_compositions", "provider_requests_expected",
-                "provider_calls_checked", "chained_pull_components", "wsum_values_checked", "wsum_two_consumers", "wsum_consumers_with_different_steps",
+                "provider_calls_checked", "chained_pull_components", "wsum_values_checked", "wsum_consumers_without_connect_time_pull", "wsum_two_consumers", "wsum_consumers_with_different_steps",
                 "static_with_memory_limit", "static_refused_early_publications", "static_refused_malformed_publications"]
         return [f"{k} never observed" for k in need if not counters.get(k)]
 
